@@ -102,7 +102,7 @@ func runC02(p *core.Program, r *core.Report) {
 	for _, sfx := range []struct{ s, doc string }{{"insert", "new key: one bucket insertion, one tail link, one size increment"}, {"update", "existing key: size/buckets unchanged"},
 		{"bound", "eviction only with a maximum set"}, {"growth", "rehash iff count >= threshold; table/index recomputed"}, {"remove", "remove unlinks and counts once"},
 		{"rehash", "rehash keeps every entry findable (same hash as lookups)"}, {"walks", "whole-table walks cover all buckets"}, {"enumer", "enumerators carry the matching discriminator"},
-		{"sort", "Sort re-inserts every entry"}, {"index", "bucket indices non-negative"}} {
+		{"sort", "Sort re-inserts every entry"}, {"index", "bucket indices non-negative"}, {"sentinel", "the header of the order ring is never taken for an entry (Put into an empty map creates an entry)"}} {
 		r.Rule("C02.backing."+sfx.s, "the linked maps that back MapValue/IntMapValue keep every decoded entry retrievable: "+sfx.doc+" (C09's rule table on those two types)", 2)
 	}
 	r.Rule("C02.width", "a payload written without a length and read back with a fixed one has that width wherever it is stored (Write emits exactly what Read consumes)", 1)
@@ -188,6 +188,7 @@ func c02Backing(p *core.Program, r *core.Report) {
 			h.checkEnumer()
 			h.checkSort()
 			h.checkIndexSign()
+			h.checkSentinel()
 		}
 		if !found {
 			r.Undec("C02.backing.insert", "lang/value."+tn, "-", "no util/hmap field backs this value type")
